@@ -51,7 +51,8 @@ ClientView(sent, pert) ==
    url |-> IF pert \in {"url", "setup_other"} THEN "other" ELSE IF pert \in {"setup_base", "base_nonsetup"} THEN "base" ELSE "track",
    \* algorithm used to compute vs algorithm written in the header
    algUsed |-> a,
-   algLabel |-> IF pert = "alg" THEN (IF a = "md5" THEN "sha256" ELSE "md5") ELSE a]
+   algLabel |-> IF pert = "alg" THEN (IF a = "md5" THEN "sha256" ELSE "md5")
+                ELSE IF pert = "noalg" /\ a # "-" THEN "implicit" ELSE a]
 
 \* the header the client sends
 Header(sent, pert) ==
@@ -68,10 +69,11 @@ UrlMatches(received, isSetup) == received = "track" \/ (isSetup /\ received = "b
 
 \* auth.Verify
 ServerVerify(enabled, h, reqMethod) ==
-  IF h.scheme = "digest" /\ (("md5" \in enabled /\ h.alg = "md5") \/ ("sha256" \in enabled /\ h.alg = "sha256"))
+  IF h.scheme = "digest" /\ (("md5" \in enabled /\ h.alg \in {"md5", "implicit"}) \/ ("sha256" \in enabled /\ h.alg = "sha256"))
   THEN /\ h.nonce = "n" /\ h.realm = "r" /\ h.user = "u"
        /\ UrlMatches(h.uri, reqMethod = "SETUP")
-       /\ h.response = <<h.alg, "u", "r", "p", "n", reqMethod, h.uri>>
+       \* an authorization without algorithm parameter is an MD5 one
+       /\ h.response = <<IF h.alg = "implicit" THEN "md5" ELSE h.alg, "u", "r", "p", "n", reqMethod, h.uri>>
   ELSE IF h.scheme = "basic" /\ "basic" \in enabled
   THEN h.user = "u" /\ h.pass = "p"
   ELSE FALSE
